@@ -263,7 +263,10 @@ func runC09(r *engine.Run) {
 	}
 	for state := 0; state < 3; state++ {
 		state := state
-		if !r.Replay || true {
+		// the registry changes between the decoding runs, i.e. after streams with unregistered proprietary
+		// CIDs have been decoded: the change is a case of its own, so that a registration that never
+		// returns (a lock left behind by a decode) is a hanging case and not a hanging check
+		setRegistry := func() {
 			lorawan.VerifRegistryReset()
 			if state == 2 {
 				// the legal registrations that register nothing (size 0), alone and after a sized one
@@ -277,6 +280,16 @@ func runC09(r *engine.Run) {
 				lorawan.RegisterProprietaryMACCommand(false, 0xFF, 1)
 				lorawan.RegisterProprietaryMACCommand(false, 0x80, 16)
 			}
+		}
+		if r.Replay {
+			setRegistry()
+		} else {
+			r.PartDims(fmt.Sprintf("registry-change/registry%d", state), []string{"reset + registrations of this registry state, after the decoding runs of the previous one"}, 1, func(c *engine.Case) {
+				c.Eval()
+				setRegistry()
+				c.NonTrivial()
+				c.Outcome("registry/changed")
+			})
 		}
 		// leading bytes of the 3-byte strings: quick = every defined CID of either
 		// direction, three unknown CIDs and four proprietary ones; thorough = all 256
